@@ -75,7 +75,7 @@ Definition hb_remove (t : hb) (k : N) : M' (elem * hb) :=
   match hel t !! k with
   | None => fault_ FVacant
   | Some e =>
-      tomb <- take_bit ;;
+      tomb <- take_tomb ;;
       ret (e, HB (hB t) (if tomb then hgl t else hgl t + 1) (delete k (hel t)))
   end.
 
